@@ -285,16 +285,23 @@ def extract_function(repo, fn, unit_renames, callees):
         # derived function: the block of the n-th loop, text after a marker, as a function body (R12-like,
         # the text itself is the repository's)
         sl = fn['slice']
-        pts0 = loop_insert_points(body)
-        if sl['loop'] >= len(pts0): raise ExtractionDrift("%s: slice loop %d missing" % (what, sl['loop']))
-        q = pts0[sl['loop']]
-        while body[q].isspace(): q += 1
-        if body[q] != '{': raise ExtractionDrift("%s: slice loop body is not a block" % what)
-        qe = match_close(body, q)
-        blk = body[q+1:qe]
-        ms = list(re.finditer(sl['after'], blk))
-        if len(ms) != 1: raise ExtractionDrift("%s: slice marker %r matched %d times" % (what, sl['after'], len(ms)))
-        body = '{' + blk[ms[0].end():] + sl.get('tail', '') + '}'
+        if 'between' in sl:
+            # derived function: the statements from the (unique) start marker up to the end of the (unique) end marker
+            ms = list(re.finditer(sl['between'][0], body)); me = list(re.finditer(sl['between'][1], body))
+            if len(ms) != 1 or len(me) != 1 or me[0].end() <= ms[0].start():
+                raise ExtractionDrift("%s: slice markers matched %d / %d times" % (what, len(ms), len(me)))
+            body = '{' + body[ms[0].start():me[0].end()] + sl.get('tail', '') + '}'
+        else:
+            pts0 = loop_insert_points(body)
+            if sl['loop'] >= len(pts0): raise ExtractionDrift("%s: slice loop %d missing" % (what, sl['loop']))
+            q = pts0[sl['loop']]
+            while body[q].isspace(): q += 1
+            if body[q] != '{': raise ExtractionDrift("%s: slice loop body is not a block" % what)
+            qe = match_close(body, q)
+            blk = body[q+1:qe]
+            ms = list(re.finditer(sl['after'], blk))
+            if len(ms) != 1: raise ExtractionDrift("%s: slice marker %r matched %d times" % (what, sl['after'], len(ms)))
+            body = '{' + blk[ms[0].end():] + sl.get('tail', '') + '}'
         stats['slice'] = 1
     # R6 exceptions
     if 'throw_ret' in fn:
